@@ -11,7 +11,7 @@ def probe_rules(n):
     return [ExternRule("Probe%d" % i, ["vfrt", "vfu", "probe_%d" % i]) for i in range(n)]
 
 
-NFAM = 9
+NFAM = 10
 
 
 def fam(index):
@@ -69,6 +69,18 @@ def fam(index):
         for n in (1, 10, 100, 255, 256, 257, 500, 1000, 1021, 1023, 1024, 1025, 1030, 1500):
             ins += ["x;" * n + "f();", "x;" * n, ("x;f(y);" * (n // 2 + 1)) + "z"]
         return g, {"Ss": ins}, []
+    if k == 9:
+        # one memoized token rule reached at the same offset from a whitespace-skipping rule and from a @no_skip_ws rule
+        # (the cache key is (rule, offset): what a caller skipped in front of the call is not part of it)
+        word = Rule("Word", Cho([Seq([Ref("Probe0"), Grp(Cho([Seq([Clo(Cho([Seq([Rng("a", "z")])]), True)])]))])]), ["memoize", "string", "no_skip_ws"])
+        num = Rule("Num", Cho([Seq([Ref("Probe1"), Grp(Cho([Seq([Clo(Cho([Seq([Rng("0", "9")])]), True)])]))])]), ["memoize", "string"])
+        tight = Rule("Tight", Cho([Seq([Ref("Word", "first"), Ref("Word", "second")]), Seq([Ref("Word", "first"), Ref("Num", "n")])]), ["no_skip_ws"])
+        loose = Rule("Loose", Cho([Seq([Ref("Word", "first"), Ref("Word", "second")]), Seq([Ref("Word", "first"), Ref("Num", "n")])]), [])
+        s = Rule("Ss", Cho([Seq([Ref("Tight", "t"), Eoi()]), Seq([Ref("Loose", "l"), L("!"), Eoi()]), Seq([Ref("Tight", "t"), L("?"), Eoi()]), Seq([Ref("Loose", "l"), Eoi()])]), ["export"])
+        s2 = Rule("Rev", Cho([Seq([Ref("Loose", "l"), L("!"), Eoi()]), Seq([Ref("Tight", "t"), Eoi()]), Seq([Ref("Loose", "l"), Eoi()])]), ["export"])
+        g = Grammar([s, s2, tight, loose, word, num] + probe_rules(2))
+        ins = ["foo bar", "foobar", "foo  bar", "foo bar!", "foo bar?", "foo 12", "foo12", "foo 12!", "foo\t12?", " foo bar", "foo bar ", "foo\nbar!", "a b", "a 1", "", "foo"]
+        return g, {"Ss": ins, "Rev": ins}, []
     if k == 0:
         # nested brackets, three alternatives sharing the prefix '(' A
         a = Rule("Aa", Cho([Seq([Ref("Probe0"), Grp(Cho([
